@@ -445,6 +445,7 @@ int main(int argc, char** argv)
                 }
             }
             sched::set_hw_threads(0);
+            purge_tmpdir();
             if (index % 3 == 0)
             {
                 r.sample(jobj({{"model", jint(d[0])}, {"classification", jint(cls)}}));
